@@ -176,6 +176,20 @@ class Definition(Sub):
             out.fail(sig + 'purity/state-leak', 'a second call with another gamma gives a result that differs from a fresh closure object (cached value leaks)')
         if not np.array_equal(c_again, c, equal_nan=True):
             out.fail(sig + 'purity/state-leak', 'the same input gives a different result after an intermediate call with another gamma')
+        # the same data as strided views of longer buffers: identical result, buffers untouched
+        bufs = [np.empty(2 * n) for _ in range(3)]
+        for b_, src in zip(bufs, (r, gamma, u)):
+            b_[0::2] = src
+            b_[1::2] = 123.5
+        clo_v = make_closure(which, spec['alias'], flag)
+        clo_v.potential = bufs[2][0::2]
+        clo_v.sigma = sigma
+        with np.errstate(all='ignore'):
+            c_v = np.asarray(clo_v.calculate(bufs[0][0::2], bufs[1][0::2]))
+        if c_v.shape != c.shape or not np.array_equal(c_v, c, equal_nan=True):
+            out.fail(sig + 'depends-on-memory-layout', '%s gives a different result for strided views of r / gamma / potential than for contiguous arrays' % which)
+        if any(not np.all(b_[1::2] == 123.5) for b_ in bufs) or not (np.array_equal(bufs[0][0::2], r) and np.array_equal(bufs[1][0::2], gamma) and np.array_equal(bufs[2][0::2], u)):
+            out.fail(sig + 'purity/input-modified', '%s.calculate wrote into the buffer behind a strided view of its inputs' % which)
         # (3) elementwise: random sub-sample in random order
         if n >= 2:
             m = int(rng.integers(1, n + 1))
